@@ -464,6 +464,19 @@ impl fmt::Debug for BodyReader {
     }
 }
 
+
+#[cfg(hoot_verif)]
+impl BodyReader {
+    pub(crate) fn verif_fingerprint(&self) -> String {
+        match self {
+            Self::NoBody => "NoBody".to_string(),
+            Self::LengthDelimited(n) => format!("LengthDelimited({})", n),
+            Self::Chunked(d) => format!("Chunked({:?})", d),
+            Self::CloseDelimited => "CloseDelimited".to_string(),
+        }
+    }
+}
+
 #[cfg(test)]
 mod test {
     use super::*;
